@@ -471,3 +471,17 @@ def _(process_program: "Any", process_res: "Any") -> "None":
         invariant("stats-distinct", forall(lambda i, j: implies(0 <= i and i < j and j < _i0_0, res[i].stats != res[j].stats)))
         invariant("msg", forall(lambda i: implies(0 <= i and i < _i0_0 and not res[i].failed and NeedsMsg(res[i].stats.programs),
                                                   res[i].stats.error is not None)))
+
+
+# ---------------------------------------------------------------- worker-pool mode (not verified as a concurrent program):
+# only the sequential glue that hands the batch size to update_stats
+@profile("pool-glue", slice=True)
+def _():
+    modifies(".*")
+
+
+@contract("hephaestus.run_parallel.process_res.update")
+def _(res: "Any") -> "Any":
+    use_profile("pool-glue")
+    # the statistics of a result set are updated with the number of programs of THAT set (the last batch may be partial)
+    site_call("update_stats", "counts-the-programs-of-this-batch", same(arg1, batch))
